@@ -1,9 +1,13 @@
 """C05 — set/reset latches obey set, reset, hold and the declared priority."""
 from bounded import gen
-from bounded.run_memory import run_history_scope
+from bounded.run_memory import run_template_scope, run_history_scope
 from checks.common import CheckRun
 
 EXPLANATION = (
+    "Template lemmas (per program of the enumerated scope, decided by SMT for ALL data values, thresholds and input "
+    "histories): for the blueprint the real pipeline emits, from every settled state and after any single-input change the "
+    "circuit is settled again within K ticks and every reader shows S3's next state (step), the same from the all-zero "
+    "state (base), and a settled state exists (cover) — resp. reader(step^L(s)) == f(reader(s)) for every state (C04). "
     "B tier (bounded): latch programs (both argument orders; set/reset as boolean signals, as comparisons on one shared "
     "input with disjoint and overlapping thresholds, on different inputs, with the constant on the left; v = 1, another "
     "constant, a signal; a lamp driven by the cell) are compiled by the real pipeline and simulated with the S2 tick "
@@ -14,10 +18,15 @@ EXPLANATION = (
 
 def run(tier):
     cr = CheckRun("C05", tier, "other", EXPLANATION, "DESIGN §4 C05")
+    cr.contracts(["contracts.c05"])
     progs = gen.c05_scope(tier)
     length, limit = (4, 60) if tier == "quick" else (6, 800)
     for optimize in (True, False):
         cr.bounded_check(run_history_scope, f"latches-{'opt' if optimize else 'noopt'}", progs,
                          f"{len(progs)} programs x input histories of {length} single-input changes (<= {limit} per program); optimize={optimize}",
                          cr.known, length=length, limit=limit, optimize=optimize)
+    for optimize in (True, False):
+        cr.bounded_check(run_template_scope, f"template-lemmas-{'opt' if optimize else 'noopt'}", "history", progs,
+                         f"{len(progs)} programs: cover + base + step lemmas (history) / round-trip lemma (iteration) by SMT over the S2 tick function; optimize={optimize}",
+                         cr.known, optimize=optimize)
     return cr.finish()
